@@ -28,6 +28,22 @@ CHECKS["C20"] = dict(
 )
 
 
+CHECKS["C04"] = dict(
+    level="exploration",
+    level_text="Model-based stateful property test (rapid state machine: Write/io.Copy/Sum/Reset with boundary-weighted chunk "
+               "lengths) against an SM3 transcribed from GB/T 32905 and anchored to the standard's vectors, plus a complete "
+               "sweep of message length x split point. Exploration; complete only on the swept lengths.",
+    level_note="Trusts harness/ref/sm3ref (validated against GB/T 32905 A.1/A.2 and OpenSSL-generated digests for lengths 0..300).",
+    technique="stateful property-based testing (rapid state machine) with reference-model oracle; exhaustive length x split sweep",
+    assumptions=["sm3ref is a correct SM3 (anchored to the standard's examples and static OpenSSL vectors)"],
+    units=[
+        dict(name="history", pkg="sm3", overlay=["sm3/zz_verif_c04_test.go"], run="^TestVerif_C04_History$",
+             quick=dict(checks=2500, steps=30), thorough=dict(checks=20000, steps=40, shards=16, timeout=3000)),
+        dict(name="sweep", pkg="sm3", overlay=["sm3/zz_verif_c04_test.go"], run="^TestVerif_C04_SplitSweep$",
+             quick=dict(), thorough=dict(shards=16, timeout=3000)),
+    ],
+)
+
 # properties whose check is not built yet are listed as not claimed (kept current as work proceeds)
 for _p in _ALL:
     if _p not in CHECKS:
